@@ -26,13 +26,25 @@ fn poly_exact(c: &[f64], x: &Dy) -> (Dy, Dy) {
 fn width(n: usize, thorough: bool) -> usize {
     if n <= 6 { 6 } else if thorough { 5 } else { 4 }
 }
-fn pick_coeffs(cx: &mut Cx, n: usize, thorough: bool) -> Vec<f64> {
-    // choice 0 of the first level = the lane-identifier vector, otherwise the cube
-    if cx.choose(2) == 0 {
-        return LANE_ID[..n].to_vec();
+/// power-of-two scalings applied to coefficients *and* knot.y: the property is scale invariant, absolute thresholds are not
+pub const SCALES: [f64; 3] = [1.0, 8.673617379884035e-19 /* 2^-60 */, 1099511627776.0 /* 2^40 */];
+fn pick_coeffs(cx: &mut Cx, n: usize, thorough: bool) -> (Vec<f64>, f64) {
+    // 0: lane-identifier vector x scale; 1: the full cube; 2: small cube {0,1,-1/3} x non-unit scales
+    match cx.choose(3) {
+        0 => {
+            let s = *cx.pick(&SCALES);
+            (LANE_ID[..n].iter().map(|c| c * s).collect(), s)
+        }
+        1 => {
+            let w = width(n, thorough);
+            ((0..n).map(|_| COEF[cx.choose(w)]).collect(), 1.0)
+        }
+        _ => {
+            let s = SCALES[1 + cx.choose(2)];
+            let small = [0.0, 1.0, -0.3333333333333333];
+            ((0..n).map(|i| if i < 6 { small[cx.choose(3)] * s } else { LANE_ID[i] * s }).collect(), s)
+        }
     }
-    let w = width(n, thorough);
-    (0..n).map(|_| COEF[cx.choose(w)]).collect()
 }
 
 type Int<T> = <T as HasIntegral>::IntegralOf;
@@ -151,8 +163,11 @@ pub fn check(thorough: bool, _seed: u64) -> Check {
         body: Box::new(move |unit, cx| {
             let d = unit / nk;
             let k = unit % nk;
-            let knot = Knot { x: KX[k / KY.len()], y: KY[k % KY.len()] };
-            let c = pick_coeffs(cx, d + 1, thorough);
+            let (c, scale) = pick_coeffs(cx, d + 1, thorough);
+            let knot = Knot { x: KX[k / KY.len()], y: KY[k % KY.len()] * scale };
+            if scale != 1.0 {
+                cx.class(3);
+            }
             if c.iter().filter(|v| **v != 0.0).count() >= 2 && knot.x != 0.0 && knot.x != 2.0 {
                 cx.nontrivial();
             }
@@ -162,9 +177,9 @@ pub fn check(thorough: bool, _seed: u64) -> Check {
             }
             by_degree7!(d, knots_leaf(&c, knot, cx))
         }),
-        classes: vec![("knot_x_zero", true), ("knot_x_negative", true), ("knot_x_positive", true)],
+        classes: vec![("knot_x_zero", true), ("knot_x_negative", true), ("knot_x_positive", true), ("scaled_by_2^-60_or_2^40", true)],
         bounds: json!({"degrees": "0..7", "coefficients": format!("lane-identifier vector + cube over the first w of {{0,1,-1,0.1,-1/3,7.25e5}}: w=6 up to degree 5, w={} for degree 6-7", if thorough {5} else {4}),
-            "knots": "x in {0,2,-2,0.5,-7.3,1e3} x y in {0,5,-1e6}", "oracle": "exact rational c_i/(i+1); exact dyadic value of the returned polynomial at knot.x"}),
+            "knots": "x in {0,2,-2,0.5,-7.3,1e3} x y in {0,5,-1e6} (y scaled like the coefficients)", "scales": "lane-identifier vector and the cube over {0,1,-1/3} also multiplied by 2^-60 and 2^40", "oracle": "exact rational c_i/(i+1); exact dyadic value of the returned polynomial at knot.x"}),
     };
     let pairs: Vec<(f64, f64)> = AB.iter().flat_map(|&a| AB.iter().filter(move |&&b| b != a).map(move |&b| (a, b))).collect();
     let np = pairs.len();
@@ -175,7 +190,7 @@ pub fn check(thorough: bool, _seed: u64) -> Check {
         body: Box::new(move |unit, cx| {
             let d = unit / np;
             let (a, b) = pairs[unit % np];
-            let c = pick_coeffs(cx, d + 1, thorough);
+            let (c, _scale) = pick_coeffs(cx, d + 1, thorough);
             if c.iter().filter(|v| **v != 0.0).count() >= 2 {
                 cx.nontrivial();
             }
